@@ -40,6 +40,12 @@ CHECKS.update({
   note="fmt.Sprintf etc. are engine models producing opaque formatted-number pieces (equal iff arguments equal); JSON export excluded (encoding/json reflection not encodable)"),
 })
 
+CHECKS.update({
+ "C02": dict(level="translation_validation", ref="DESIGN.md 4 C02",
+  text="for each of the 24 (operator, lhs type, rhs type) combinations of + - * / % ** over int and float literals: the real opt.Optimise on a BinaryExpr of two literals with fully symbolic values is compared with the real VM executing the bytecode the working tree's compiler emits WITHOUT optimisation for `g = A op B` (operands replaced by the same symbols): folded literal type and value equal the runtime result, no runtime error where the fold is accepted, rejection iff / or % by a literal zero; plus a concrete boundary-value grid per combination",
+  note="math.Pow/math.Mod uninterpreted in the symbolic jobs (grid jobs evaluate them natively); nested constants by the bottom-up argument; sentinel substitution assumes checker/codegen treat literal values opaquely"),
+})
+
 NOT_APPLICABLE = {
  "C03": "whole compiler front end on arbitrary bytes: channel-driven lexer, goyacc tables, HM unification over a pointer graph, regexp/syntax - symbolic bytes fork at every character class and reach stdlib parsers that cannot be encoded (DESIGN.md 4 C03)",
  "C17": "behaviour lives in kernel pipe/socket semantics and real goroutine interleavings; a faithful stub would re-implement net (DESIGN.md 4 C17)",
